@@ -34,6 +34,15 @@ type Config struct {
 	Pinned   map[string][]string
 	PinnedUF map[string][][]string
 	NoPortfolio bool
+	// Goroutines enables the cooperative scheduler (go statements, blocking
+	// channel operations). SchedNondet makes scheduling and select choices
+	// nondeterministic (explored); SchedPreempt is the number of voluntary
+	// preemptions at synchronisation points that are explored per path.
+	Goroutines          bool
+	SchedNondet         bool
+	SelectNondet        bool // only the choice among ready select cases is explored
+	SchedPreempt        int
+	DeadlockIsViolation bool
 	// NoOps lists function-name prefixes whose calls return zero values.
 	NoOps []string
 	// DropGo lists functions whose `go` statements are ignored.
@@ -54,7 +63,7 @@ type wildDeref struct{ msg string }
 
 func isControlPanic(r interface{}) bool {
 	switch r.(type) {
-	case killPath, budgetExceeded, unsupported, wildDeref, harnessStop:
+	case killPath, budgetExceeded, unsupported, wildDeref, harnessStop, abortGor, deadlock:
 		return true
 	}
 	return false
@@ -243,9 +252,15 @@ type channel struct {
 	buf    []value
 	cap    int
 	closed bool
+	i      *interpreter
+	timer  bool // a timer channel: its tick may be observed at any later time
 }
 
 func (c *channel) send(v value) {
+	if c != nil && c.i != nil && c.i.sched != nil {
+		c.i.sched.send(c, v)
+		return
+	}
 	if c == nil {
 		panic(unsupported{"send on nil channel (would block forever)"})
 	}
@@ -266,6 +281,9 @@ func (c *channel) canSend() bool {
 }
 
 func (c *channel) recv() (value, bool) {
+	if c != nil && c.i != nil && c.i.sched != nil {
+		return c.i.sched.recv(c)
+	}
 	if c == nil {
 		panic(unsupported{"receive on nil channel (would block forever)"})
 	}
@@ -281,6 +299,10 @@ func (c *channel) recv() (value, bool) {
 }
 
 func (c *channel) close() {
+	if c.i != nil && c.i.sched != nil {
+		c.i.sched.closeChan(c)
+		return
+	}
 	if c.closed {
 		panic(runtimeErr("close of closed channel"))
 	}
@@ -288,6 +310,9 @@ func (c *channel) close() {
 }
 
 func (i *interpreter) doSelect(fr *frame, instr *ssa.Select) value {
+	if i.sched != nil {
+		return i.sched.selectOp(fr, instr)
+	}
 	chosen := -1
 	for k, st := range instr.States {
 		ch, _ := fr.get(st.Chan).(*channel)
@@ -342,6 +367,10 @@ func (i *interpreter) goStmt(fr *frame, instr *ssa.Go, fn value, args []value) {
 		if d == name || strings.HasSuffix(d, "*") && strings.HasPrefix(name, strings.TrimSuffix(d, "*")) {
 			return
 		}
+	}
+	if i.sched != nil {
+		i.sched.spawn(fn, args, name)
+		return
 	}
 	panic(unsupported{"go statement (" + name + ") at " + i.posString(instr.Pos(), fr)})
 }
